@@ -57,3 +57,66 @@ Example C07_substitute_faithful_nonvacuous :
   wfb h = true /\ substitute_faithful h 0 h = Panic.
 Proof. vm_compute. repeat split; reflexivity. Qed.
 Print Assumptions C07_substitute_faithful_nonvacuous.
+
+(* ======================================================================================== *)
+(* the exact panic condition of the library's algorithm, and its behaviour outside the domain of C07_substitute *)
+From BddVerif Require Import Proofs.Gaps3Substitute.
+
+(* in the domain (well-formed operands over the same variable count, x in range) the algorithm panics exactly on
+   the proxy-variable path — x carried by a node of f AND by a node of g — when the variable count has no room
+   for the proxy variable (`checked_add(1).unwrap()` on u16): never on the clone path, never on the safe path
+   (also with 65535 variables), never below 65535 variables *)
+Theorem C07_substitute_panic_iff : forall f x g, wf f -> wf g -> nvars f = nvars g -> x < nvars f ->
+  (substitute_faithful f x g = Panic <->
+   mem x (support f) = true /\ mem x (support g) = true /\ 65535 <= nvars f).
+Proof. exact substitute_faithful_panic_iff. Qed.
+Print Assumptions C07_substitute_panic_iff.
+
+(* … and in every other case it answers Ok with the substitution semantics *)
+Theorem C07_substitute_ok_iff : forall f x g, wf f -> wf g -> nvars f = nvars g -> x < nvars f ->
+  ((exists r, substitute_faithful f x g = Ok r /\ wf r /\ nvars r = nvars f /\
+              forall v, eval r v = eval f (upd v x (eval g v))) <->
+   ~ (mem x (support f) = true /\ mem x (support g) = true /\ 65535 <= nvars f)).
+Proof. exact substitute_faithful_ok_iff. Qed.
+Print Assumptions C07_substitute_ok_iff.
+
+(* the three paths, which one is taken, and what each answers *)
+Theorem C07_substitute_paths : forall f x g, wf f -> wf g -> nvars f = nvars g -> x < nvars f ->
+  (mem x (support f) = false -> substitute_faithful f x g = Ok f) /\
+  (mem x (support f) = true -> mem x (support g) = false ->
+     exists r, substitute_faithful f x g = Ok r /\ Canonical r /\ nvars r = nvars f /\
+       forall v, eval r v = eval f (upd v x (eval g v))) /\
+  (mem x (support f) = true -> mem x (support g) = true ->
+     (nvars f < 65535 ->
+        exists r, substitute_faithful f x g = Ok r /\ Canonical r /\ nvars r = nvars f /\
+          forall v, eval r v = eval f (upd v x (eval g v))) /\
+     (65535 <= nvars f -> substitute_faithful f x g = Panic)).
+Proof. exact substitute_faithful_paths. Qed.
+Print Assumptions C07_substitute_paths.
+
+(* outside the domain.  (a) x >= nvars f: no node of a well-formed f carries x, the result is a clone of f, whatever
+   g is (no hypothesis on g).  (b) operands over different variable counts: clone when no node of f carries x,
+   Panic otherwise (the variable-count assertion of the `iff` apply, or an earlier unwrap on the proxy path) —
+   and the compositional model of C07_substitute does the same *)
+Theorem C07_substitute_out_of_range : forall f x g,
+  (wf f -> nvars f <= x -> substitute_faithful f x g = Ok f) /\
+  (wf f -> wf g -> nvars f <> nvars g ->
+     substitute_faithful f x g = (if mem x (support f) then Panic else Ok f) /\
+     substitute_faithful f x g = substitute f x g).
+Proof.
+  intros f x g. split; [exact (substitute_faithful_var_out_of_range f x g)|].
+  intros Wf Wg NV. split; [exact (substitute_faithful_nvars_mismatch f x g Wf Wg NV)|
+                           exact (substitute_models_agree_outside f x g Wf Wg NV)].
+Qed.
+Print Assumptions C07_substitute_out_of_range.
+
+Example C07_substitute_panic_iff_nonvacuous :
+  let f := [mkNode 65535 0 0; mkNode 65535 1 1; mkNode 0 0 1] in
+  let g := [mkNode 65535 0 0; mkNode 65535 1 1; mkNode 7 0 1] in
+  let h := [mkNode 3 0 0; mkNode 3 1 1; mkNode 0 0 1] in
+  wfb f = true /\ wfb g = true /\ wfb h = true /\
+  substitute_faithful f 0 g = Ok g /\ substitute_faithful f 0 f = Panic /\ substitute_faithful f 7 f = Ok f /\
+  substitute_faithful h 0 f = Panic /\ substitute_faithful h 0 g = Panic /\ substitute_faithful h 1 g = Ok h /\
+  substitute_faithful h 9 g = Ok h.
+Proof. exact substitute_panic_iff_examples. Qed.
+Print Assumptions C07_substitute_panic_iff_nonvacuous.
